@@ -3780,6 +3780,12 @@ fn write_residuals<W: BitWrite>(
                 return None;
             }
 
+            // residuals must fit a signed 32-bit integer *excluding*
+            // its most negative value (RFC 9639 section 9.2.7.3)
+            if partition.contains(&i32::MIN) {
+                return None;
+            }
+
             let partition_sum = partition
                 .iter()
                 .map(|i| u64::from(i.unsigned_abs()))
